@@ -59,6 +59,8 @@ KERNELS = [
     "compare_ci/3",
     # include/st_codecs_priv.h: the decoders into a caller buffer
     "b64_decode_size", "hex_decode", "b64_decode",
+    # include/st_format_priv.h
+    "pad_size",
 ]
 
 class Unsupported(Exception):
@@ -80,7 +82,7 @@ def dump_ast():
             f.write('#include "st_string.h"\n#include "st_utf_conv.h"\n#include "st_codecs.h"\n'
                     '#include "st_format.h"\n#include "st_stringstream.h"\n')
         s = ""
-        for flt in ("_ST_PRIVATE::", "utf_validation_t", "ST::assume_valid", "ST::substitute_invalid", "ST::check_validity"):
+        for flt in ("_ST_PRIVATE::", "utf_validation_t", "ST::assume_valid", "ST::substitute_invalid", "ST::check_validity", "digit_class_t", "ST::digit_"):
             r = subprocess.run([CLANG, "-std=gnu++20", "-fsyntax-only", "-I", os.path.join(tmp, "cfg"),
                                 "-I", os.path.join(REPO, "include"), "-Xclang", "-ast-dump=json",
                                 "-Xclang", "-ast-dump-filter=" + flt, tu],
@@ -550,6 +552,15 @@ class Translator:
             r.outpos = v["kind"] == "pos"
             r.mem = v.get("mem")
             return [], r, env
+        if k == "MemberExpr":
+            b = inner(n)[0]
+            while b["kind"] in ("ImplicitCastExpr", "ParenExpr"):
+                b = inner(b)[0]
+            key = "%s.%s" % (b.get("referencedDecl", {}).get("name"), n.get("name"))
+            if b["kind"] == "DeclRefExpr" and key in env.vars:
+                v = env.vars[key]
+                return [], Val(v["name"], v["lo"], v["hi"], isint=v["isint"], atom=True), env
+            raise Unsupported("member access " + key)
         if k == "UnaryOperator" and n["opcode"] == "*":
             sub = inner(n)[0]
             lines, idx, env = self.expr(fn, sub, env)
@@ -617,7 +628,15 @@ class Translator:
         if v["kind"] == "int":
             r = self.var_range(v)
             if not (r[0] <= nv["lo"] and nv["hi"] <= r[1]):
-                if v["isint"] or d != 1:
+                if v["isint"]:
+                    # signed overflow is undefined: the translation faults there (Fault.overflow), the bridge shows it unreachable
+                    bits = int_type(v["ctype"], self.enums)[1]
+                    line = "let %s ← chkS %d (%s %s 1)" % (new, bits, v["name"], "+" if d == 1 else "-")
+                    nv["lo"], nv["hi"] = max(nv["lo"], r[0]), min(nv["hi"], r[1])
+                    env.vars[name] = nv
+                    newv = Val(new, nv["lo"], nv["hi"], isint=True, atom=True)
+                    return [line], (old if n.get("isPostfix") else newv), env
+                if d != 1:
                     raise Unsupported("++/-- may leave the type's range: " + name)
                 line = "let %s := (%s + 1) %% %d" % (new, v["name"], r[1] + 1)      # unsigned wrap-around
                 nv["lo"], nv["hi"] = r
@@ -993,6 +1012,18 @@ class Translator:
             else:
                 ct = s.get("computeResultType", {}).get("qualType") or var["ctype"]
                 cur = self.convert(cur, ct)
+                it_ct = int_type(ct, self.enums)
+                if it_ct and it_ct[0] and op in ("+", "-"):
+                    # signed compound assignment: checked (a fault where C++ leaves the behaviour undefined)
+                    a2, b2 = to_int(cur), to_int(rv)
+                    lo2, hi2 = (a2.lo + b2.lo, a2.hi + b2.hi) if op == "+" else (a2.lo - b2.hi, a2.hi - b2.lo)
+                    rlo, rhi = -(1 << (it_ct[1] - 1)), (1 << (it_ct[1] - 1)) - 1
+                    if not (rlo <= lo2 and hi2 <= rhi):
+                        tmp = fn.fresh(name)
+                        l = l + ["let %s ← chkS %d (%s %s %s)" % (tmp, it_ct[1], a2.p(), op, b2.p())]
+                        v = Val(tmp, max(lo2, rlo), min(hi2, rhi), isint=True, atom=True)
+                        l2, env = self.assign(fn, name, v, env)
+                        return l + l2, env
                 v = self.arith(op, cur, rv, ct)
             l2, env = self.assign(fn, name, v, env)
             return l + l2, env
@@ -1276,6 +1307,18 @@ class Translator:
                     env.vars[pn] = dict(name=str(k), lo=k, hi=k, isint=False, kind="int", ctype=t)
                     params.append(dict(kind="omitted"))
                     continue
+                if strip_cv(t.replace("&", "")).strip() in ("ST::format_spec", "format_spec") and is_ref(t) and "const" in t:
+                    # a structure passed by const reference: one parameter per field the function reads
+                    for fname, ftype in struct_fields(d, pn):
+                        it = int_type(ftype, self.enums)
+                        if it is None:
+                            raise Unsupported("field %s.%s of type %s" % (pn, fname, ftype))
+                        lo, hi = type_range(ftype, self.enums)
+                        fl = "%s_%s" % (ln, fname)
+                        env.vars["%s.%s" % (pn, fname)] = dict(name=fl, lo=lo, hi=hi, isint=it[0], kind="int", ctype=ftype)
+                        binders.append("(%s : %s)" % (fl, "Int" if it[0] else "Nat"))
+                    params.append(dict(kind="struct", isint=False))
+                    continue
                 if strip_cv(t.replace("&", "")).strip() in ("ST::string", "string") and is_ref(t) and "const" in t:
                     uses_mem = True
                     env.vars[pn] = dict(name=None, lo=0, hi=0, isint=False, kind="ststring", ctype=t, size=ln + "_size", mem=None)
@@ -1411,6 +1454,23 @@ def null_tested(fdecl, pname, sigs={}):
         return any(walk(c) for c in n.get("inner", []) if isinstance(c, dict))
     return walk(fdecl)
 
+def struct_fields(fdecl, pname):
+    """(field, type) of every `pname.field` the function mentions, in order of first use"""
+    seen = []
+    def walk(n):
+        if n.get("kind") == "MemberExpr":
+            b = inner(n)[0] if inner(n) else {}
+            while b.get("kind") in ("ImplicitCastExpr", "ParenExpr"):
+                b = inner(b)[0]
+            if b.get("kind") == "DeclRefExpr" and b["referencedDecl"].get("name") == pname:
+                if n["name"] not in [x[0] for x in seen]:
+                    seen.append((n["name"], qt(n)))
+        for c in n.get("inner", []):
+            if isinstance(c, dict):
+                walk(c)
+    walk(fdecl)
+    return seen
+
 def local_elem(fn, n):
     """`arr[k]` with `arr` a local array of the function and `k` a literal -> the name of the element variable"""
     if fn is None or n.get("kind") != "ArraySubscriptExpr":
@@ -1473,7 +1533,25 @@ namespace StVerif.Generated.Kernels
 open StVerif.Cxx
 """
 
+def fingerprint():
+    h = hashlib.sha256()
+    files = sorted(glob.glob(os.path.join(REPO, "include", "**", "*"), recursive=True)) + [os.path.join(REPO, "CMakeLists.txt"),
+             os.path.abspath(__file__), os.path.join(HERE, "gen_config.py")]
+    for path in files:
+        if os.path.isfile(path):
+            h.update(os.path.basename(path).encode()); h.update(open(path, "rb").read())
+    return h.hexdigest()[:24]
+
 def main():
+    cache = os.path.join(VERIF, ".cache", "kernels", fingerprint() + ".lean")
+    if os.path.exists(cache):
+        text = open(cache).read()
+        old = open(OUT).read() if os.path.exists(OUT) else None
+        if text != old:
+            with open(OUT, "w") as f:
+                f.write(text)
+        print("gen_kernels: Kernels.lean %s (%d functions, cached translation of this tree)" % ("rewritten" if text != old else "unchanged", len(KERNELS)))
+        return 0
     try:
         objs = dump_ast()
         tr = Translator(objs)
@@ -1489,6 +1567,9 @@ def main():
     except Unsupported as e:
         print("gen_kernels: cannot translate (%s); Kernels.lean left as committed" % e)
         return 3
+    os.makedirs(os.path.dirname(cache), exist_ok=True)
+    with open(cache, "w") as f:
+        f.write(text)
     old = open(OUT).read() if os.path.exists(OUT) else None
     if text != old:
         os.makedirs(os.path.dirname(OUT), exist_ok=True)
